@@ -194,8 +194,10 @@ func (QuantityReporter).Process returns (err)
 // a function of the accumulated figures alone, whatever the map iteration order (C05); the sort itself is the
 // library's (deterministic) stable sort by quantity.
 func (QuantityReporter).Flush returns (err)
-  props C17 C08 C05
+  props C17 C08 C05 C07
   requires @args r.accumulator != nil && r.output != nil
+  // every row: the summed quantity with two decimals, a tab, the food's name
+  ghost after call 1 Fprintf { assert @row [C07] prFmt[prLen - 1] == "%0.2f\t%s\n" && PrintedF(prLen - 1, 0, el.value) && PrintedStr(prLen - 1, 1, el.name) }
   calluse SliceStable#1 tuples
   calluse SliceStable#2 tuples
   modifies ghost(bufSticky, sinkFailed, sinkPend, prLen, prSink, prArg, prArgs, prFmt)
@@ -238,6 +240,8 @@ func (ElementReporter).Process returns (err)
 func (ElementReporter).Flush returns (err)
   props C17 C08 C07
   requires @args er.output != nil
+  // every row: the amount with two decimals, a tab, the recipe's name
+  ghost after call 1 Fprintf { assert @row [C07] prFmt[prLen - 1] == "%0.2f\t%s\n" && PrintedF(prLen - 1, 0, el.Value) && PrintedStr(prLen - 1, 1, el.Name) }
   modifies ghost(bufSticky, sinkFailed, sinkPend, prLen, prSink, prArg, prArgs, prFmt)
   ensures @one-line-per-row [C07] err == nil ==> prLen == old(prLen) + len(er.list)
   ensures @sink [C17] BufStep(er.output)
